@@ -156,6 +156,14 @@ let run (op : string) (f : string list) : string =
   | ("rootless_includes" | "rootless_includes_pinned"), uid :: comps ->
       ok [tf (M.rootless_includes (op = "rootless_includes") (to_str uid) (List.map to_str comps))]
   | "is_url", [s] -> ok [tf (M.is_url (to_str s))]
+  | "digest", f ->
+      (* the same projection of a whole run that tools/vlib.py step_incoq evaluates inside Coq: per result a tag and the service text *)
+      let rec pairs = function p :: t :: r -> (to_str p, to_str t) :: pairs r | _ -> [] in
+      let (_, convs) = M.process_files podman_bin (fun _ -> false) true false (pairs f) in
+      ok (List.concat_map (fun (_, r) -> match r with
+            | M.ROk (svc, sp) -> ["1"; of_str (M.to_string svc @ [n_of_int 0] @ sp)]
+            | M.RErr _ -> ["2"; of_str []] | M.RPanic -> ["3"; of_str []] | M.RSkip -> ["4"; of_str []]) convs)
+  | "quote_words_raw", ws -> ok [of_str (M.quote_words (List.map to_str ws))]
   | "c07_lists", [w] ->
       let w = bare w in
       if w = "managed" then ok (List.map of_str M.mANAGED) else
